@@ -20,7 +20,7 @@ func init() {
 			"R-C10-2 back-off constants as loop facts (init: i < 50, wait 0 then min((i+1)·250ms, 3s); receiveRetry: i < 5, wait i·50ms; exhaustion returns a non-nil error); " +
 			"R-C10-3 every timer wait in the module sits in a select that also has a ctx.Done() case, no time.Sleep, bare receives only on Done()/Ready() channels; " +
 			"R-C10-4 advertise/monitor start every goroutine with eg.Go on an errgroup.WithContext group using the derived context, return eg.Wait's error; Listen interrupts the read on cancellation; a link event yields ErrLinkChange; " +
-			"R-C10-5 the error handed to init on re-dial is the one the task function returned R-C10-6 the failed read/write stays in the error chain (returned as is or %w-wrapped) in Listen, send and the task goroutines; R-C10-7 the Dial callbacks of Run return the task's error unchanged unless it is context.Canceled and panic only for nil; R-C10-8 linkStateWatcher(group ctx, watchC) runs under the task's errgroup, BuildTasks hands each task Watcher.Subscribe(own name, LinkDown), and the watcher waits whenever the channel is non-nil; R-C10-9 every send of a request to the scheduler (listener callback, multicast loop) is an arm of a blocking select with ctx.Done(), so no goroutine of the task outlives a stopped scheduler; R-C10-10 the context Dial hands to the task function is its own ctx or one derived from it inside the same re-dial iteration; R-C10-11 receiveRetry goes round its loop after a failed read only under net.Error.Timeout() == true; R-C10-12 (shared with R-C11-6) the sysctl helpers keep the os error in the chain, so a vanished interface is tolerated at clean-up and the task is re-dialed; R-C10-13 Listen asks ctx.Err() about a failed read before it cancels the context it derived.",
+			"R-C10-5 the error handed to init on re-dial is the one the task function returned R-C10-6 the failed read/write stays in the error chain (returned as is or %w-wrapped) in Listen, send and the task goroutines; R-C10-7 the Dial callbacks of Run return the task's error unchanged unless it is context.Canceled and panic only for nil; R-C10-8 linkStateWatcher(group ctx, watchC) runs under the task's errgroup, BuildTasks hands each task Watcher.Subscribe(own name, LinkDown), and the watcher waits whenever the channel is non-nil; R-C10-9 every send of a request to the scheduler (listener callback, multicast loop) is an arm of a blocking select with ctx.Done(), so no goroutine of the task outlives a stopped scheduler; R-C10-10 the context Dial hands to the task function is its own ctx or one derived from it inside the same re-dial iteration; R-C10-11 receiveRetry goes round its loop after a failed read only under net.Error.Timeout() == true; R-C10-12 (shared with R-C11-6) the sysctl helpers keep the os error in the chain, so a vanished interface is tolerated at clean-up and the task is re-dialed; R-C10-13 Listen asks ctx.Err() about a failed read before it cancels the context it derived; R-C10-14 the ctx.Done() arm of init's back-off returns ctx.Err().",
 		Assumptions: []string{
 			"Go type checker and go/ssa construction are correct",
 			"errgroup.WithContext cancels the derived context on the first non-nil error",
@@ -45,6 +45,7 @@ func runC10(c *Ctx) {
 	// a vanished interface must be recognisable when autoconf is restored, or the re-dial never happens
 	sysctlCause(c, "R-C10-12")
 	listenClassifiesBeforeCancel(c, "R-C10-13")
+	initCancelReturnsErr(c, "R-C10-14")
 }
 
 // c10RetryOnlyTimeouts (R-C10-11): a failed read is retried on the same
@@ -1256,4 +1257,41 @@ func listenClassifiesBeforeCancel(c *Ctx, rule string) {
 	}
 	c.R.Check(n >= 2 && bad == "", rule, fn+":classifies-before-cancel", fn, c.pos(l.Pos()), fmt.Sprintf("%d path(s) after a failed read; %s", n, bad),
 		"a failed read is classified by ctx.Err() before Listen cancels the context it derived", "every receive error is reported as context.Canceled: the task ends as if stopped and is never re-established")
+}
+
+
+// initCancelReturnsErr (R-C10-14 / R-C20-7): when the context ends during the
+// dialer's back-off, init returns ctx.Err() itself. Dial recognises a shutdown
+// by errors.Is(err, context.Canceled); context.Cause(ctx) (a signal message,
+// say) or a re-worded error would turn every stop that lands in the back-off
+// into a task failure, and Serve would report an error instead of success.
+func initCancelReturnsErr(c *Ctx, rule string) {
+	ini := c.needMethod(rule, "internal/system", "Dialer", "init")
+	if ini == nil {
+		return
+	}
+	fn := c.fname(ini)
+	n, bad := 0, ""
+	for _, p := range c.pathsO(rule, ini, an.PathOpts{EmitCut: true}) {
+		if p.Ret == nil || len(p.Results) != 2 {
+			continue
+		}
+		done := false
+		for _, a := range selectArmsOf(p) {
+			if strings.Contains(a.chanExpr, "Done(") {
+				done = true
+			}
+		}
+		if !done {
+			continue
+		}
+		n++
+		res := p.Results[1]
+		ok := res.Op == an.OpCall && res.Fn == nil && res.Name == "Err" && len(res.Args) >= 1 && res.Args[0].Op == an.OpParam
+		if !ok {
+			bad = "on cancellation init returns " + shortExpr(res)
+		}
+	}
+	c.R.Check(n >= 1 && bad == "", rule, fn+":cancel-returns-ctx-err", fn, c.pos(ini.Pos()), fmt.Sprintf("%d cancellation path(s); %s", n, bad),
+		"the ctx.Done() arm of the back-off returns ctx.Err()", "a stop during the dial back-off is reported as a task failure (Dial only maps context.Canceled to a clean return)")
 }
